@@ -427,6 +427,17 @@ def handle (line : String) : String :=
   | "speckey" :: args => doSpecKey args
   | "ptr" :: args => doPtr args
   | "lib" :: args => doLib args
+  | ["cli-opts", l, n, r] =>
+    -- the SetEncodings list the CLI client sends for a command line (VncModel/Cli.lean + connectionMade)
+    match parseBool? l, parseBool? n, parseBool? r with
+    | some l, some n, some r =>
+      let cfg := cliCfg { localcursor := l, nocursor := n, disableDesktopResizing := r }
+      let outs := (connectionMade { cfg := cfg, pf := Tables.RGB32 }).2
+      let ws := outs.filterMap fun o => match o with | .write b => some b | _ => none
+      -- the header write [2, 0, count] followed by one 4-byte write per encoding
+      let encs := (ws.dropWhile fun b => b.head? != some 2).drop 1
+      "ok " ++ ",".intercalate (encs.map fun b => toString (Int.ofNat (beNat b) - (if beNat b ≥ 2147483648 then 4294967296 else 0)))
+    | _, _, _ => "bad-op"
   | "compile" :: args => doCompile args
   | "crypto" :: op :: args => doCrypto op args
   | "api-run" :: args => doApiRun args
